@@ -112,6 +112,20 @@ func eval(c Case) *pbt.Fail {
 						dropped++
 					}
 				}
+				// exposure compensation whose reduced fraction does not fit the 8-bit numerator / denominator of meta.ExposureBias
+				if c.Rec.Bias != nil && len(diffs) == 1 && strings.HasPrefix(diffs[0], "ExposureBias") {
+					n, d := int64(c.Rec.Bias[0]), int64(c.Rec.Bias[1])
+					a, b := n, d
+					if a < 0 {
+						a = -a
+					}
+					for b != 0 {
+						a, b = b, a%b
+					}
+					if a > 0 && (n/a > 127 || n/a < -128 || d/a > 255) {
+						return pbt.Failf("bias-not-representable", "%s(%s): %s (the reduced fraction %d/%d does not fit 8 + 8 bits)", entry, enc.name, diffs[0], n/a, d/a)
+					}
+				}
 				if dropped > 0 && len(exifcheck.Compare(e, &drop, c.Ctx)) == 0 {
 					return pbt.Failf("long-text:"+kind, "%s(%s): %d text value(s) longer than %d bytes are reported as absent (everything else is exact): %s", entry, enc.name, dropped, window, strings.Join(diffs, "; "))
 				}
@@ -158,6 +172,7 @@ var chkBig = pbt.Check[Case]{Name: "record-roundtrip-pending-limit", Eval: eval,
 var chkHeavy = pbt.Check[Case]{Name: "record-roundtrip-consumed-plus-pending", Eval: eval, Gen: genWith(gen.Options{Unbuffered: true, HeavyWriter: true}, "")}
 var chkMany = pbt.Check[Case]{Name: "record-roundtrip-entry-limit", Eval: eval, Gen: genWith(gen.Options{Unbuffered: true, ManyEntries: true}, "")}
 var chkManyBuf = pbt.Check[Case]{Name: "record-roundtrip-entry-limit-buffered", Eval: eval, Gen: genWith(gen.Options{ManyEntries: true}, "")}
+var chkBias = pbt.Check[Case]{Name: "record-roundtrip-camera-bias", Eval: eval, Gen: genWith(gen.Options{Unbuffered: true, CameraBias: true, MaxForeign: 2}, "")}
 var chkArr = pbt.Check[Case]{Name: "record-roundtrip-out-of-line-arrays", Eval: eval, Gen: genWith(gen.Options{Unbuffered: true, Arrays: true, MaxForeign: 3}, "")}
 var chkLong = pbt.Check[Case]{Name: "record-roundtrip-long-text", Eval: eval, Gen: genWith(gen.Options{Unbuffered: true, LongText: true, MaxForeign: 2}, "")}
 var chkSub = pbt.Check[Case]{Name: "record-roundtrip-ext-subsec", Eval: eval, Gen: genWith(gen.Options{Unbuffered: true, ExtSubSecDigits: true}, "subsec-digits")}
@@ -171,6 +186,7 @@ func init() {
 	pbt.Register(chkManyBuf)
 	pbt.Register(chkLong)
 	pbt.Register(chkArr)
+	pbt.Register(chkBias)
 }
 
 func TestProp(t *testing.T) {
@@ -223,6 +239,9 @@ func TestProp(t *testing.T) {
 		return
 	}
 	if !pbt.Run(t, rec, chkManyBuf, rec.Env.Pick(300, 6000), 6) {
+		return
+	}
+	if !pbt.Run(t, rec, chkBias, rec.Env.Pick(400, 8000), 9) {
 		return
 	}
 	if !pbt.Run(t, rec, chkArr, rec.Env.Pick(400, 8000), 8) {
